@@ -236,6 +236,17 @@ static int cmd_steptrace(int, char**) {
       }
       if (at_halt) { finished = true; break; }
     }
+    // the same program once more, uninterrupted: execute() on a fresh VM without stepping mode (the path the command line tool takes)
+    if (finished) {
+      VM v2(cr.code);
+      signal(SIGALRM, on_alarm);
+      g_case = in["i"].is_number() ? in["i"].get<long>() : -1;
+      alarm(30);
+      v2.execute();
+      alarm(0);
+      out["exec_views"] = views_json(v2);
+      out["exec_done"] = v2.isDone();
+    }
     out["stops"] = stops; out["finished"] = finished; out["steps"] = steps;
     out["maxdepth"] = (int)maxdepth; out["maxdata"] = (int)maxdata; out["frames_exact"] = frames_exact;
     out["nmaps"] = (int)cr.code.stack_maps.size();
